@@ -13,9 +13,10 @@ ALL = ["C%02d" % i for i in range(1, 21)]
 
 def main():
     checks, na = [], []
+    claimed = open(os.path.join(HERE, "claimed.txt")).read().split()
     for pid in ALL:
         path = os.path.join(HERE, "props", pid.lower() + ".py")
-        if not os.path.exists(path):
+        if not os.path.exists(path) or pid not in claimed:
             na.append({"property_id": pid, "reason": "check not built yet (work in progress; see DESIGN.md section 5 for the intended design)"})
             continue
         mod = importlib.import_module("props." + pid.lower())
